@@ -434,7 +434,7 @@ def prepare(tier, seed):
             except Exception:
                 for g in groups.values():
                     suspects += g[:3]
-            suspects = suspects[:(12 if tier == 'quick' else 40)]
+            suspects = suspects[:(24 if tier == 'quick' else 48)]
             prep['t12']['suspects'] = len(suspects)
             prep['t12']['ill_suspects'] = len(ill_suspects)
         # identifiers on which to_snake_case / to_pascal_case differ from the model: machines using them
